@@ -47,6 +47,15 @@ class Contract(object):
         ctx.oblige(name, z3.BoolVal(False), kind='safety', tags=tags, note=note)
 
 
+def _shape(self, ctx, name, tags=(), note=''):
+    """the value / iterable has a form the contract cannot interpret: an obligation that cannot be discharged, reported as a
+    violation only if a failing input is found on the real code (otherwise UNDECIDED - it may be a harmless re-write)"""
+    ctx.oblige(name, z3.BoolVal(False), kind='shape', tags=tags, note=note)
+
+
+Contract.shape = _shape
+
+
 def install_caller_hooks(ctx, cats=('shape', 'canon', 'link')):
     """hooks a caller-side (modular) proof needs: when a loop havocs a graph whose typestate is `valid`, a fresh ghost
     presence view and the invariant for the pairs in focus; when a new pair comes into focus, the invariant of every
